@@ -1581,6 +1581,8 @@ def r05_7(ctx):
         return
     clip = ps[0][2][2][1]
     alts = an.phi_terms(clip) if clip[0] in ('phi', 'rec') else [clip]
+    # one aggregate assembled from a joined tuple counts once per alternative
+    alts = [v for t0 in alts for _bb, v in shared.value_variants(an, strip_all(t0))]
     n = 0
     for t in alts:
         t = strip_all(t)
@@ -1751,6 +1753,26 @@ def r05_8(ctx):
                     rect = True
     ctx.check(top and rect and not wrong, R, key + '|top entry', b.loc(), 'clip_bounds = clip_stack.last().rect', 'clip_bounds does not read the rect of the top clip entry (clip_stack.last()%s): nested clips are not intersected' % (', uses %s' % sorted(set(wrong)) if wrong else ''))
     ctx.check(surface['w'] and surface['h'], R, key + '|empty stack', b.loc(), 'the whole surface when no clip is pushed', 'clip_bounds does not fall back to (0, 0, width, height) when the stack is empty')
+    # ... and of nothing else: the rectangle is stored by push_clip / push_layer and outlives what is current when it is
+    # computed (an open layer, the transform), so it may depend on the clip stack and the surface size only
+    others = set()
+    bodies2 = [b] + [cb for q2, cb in ctx.F.bodies.items() if q2.startswith(DT + 'clip_bounds::{closure')]
+    for bb2 in bodies2:
+        an2 = ctx.an(bb2)
+        for d2 in an2.defs:
+            if d2.kind in ('assign', 'call') and d2.bb in an2.cfg.reach:
+                t2 = an2.def_term(d2)
+                for x in subterms(t2):
+                    if len(x) == 5 and x[0] == 'field' and x[3] == 'raqote::draw_target::DrawTarget' and x[2] not in ('clip_stack', 'width', 'height'):
+                        others.add(x[2])
+        for bi2, t3 in bb2.terminators('switch'):
+            if bi2 in an2.cfg.reach:
+                c3 = an2.term_at(bi2, len(bb2.blocks[bi2]['st']), t3['o'])
+                for x in subterms(c3):
+                    if len(x) == 5 and x[0] == 'field' and x[3] == 'raqote::draw_target::DrawTarget' and x[2] not in ('clip_stack', 'width', 'height'):
+                        others.add(x[2])
+    ctx.check(not others, R, key + '|clip stack only', b.loc(), 'clip_bounds depends on the clip stack and the surface size only',
+              'clip_bounds also depends on self.%s: push_clip and push_layer store its result, so a rectangle narrowed by what happens to be current (an open layer) survives after that is gone and later drawing is clipped by it' % ', self.'.join(sorted(others)))
 
 
 def r11_6(ctx):
@@ -1765,3 +1787,56 @@ def r11_6(ctx):
     rts = [strip_all(t) for t in shared.ret_terms(ctx, g)]
     ok = len(rts) == 1 and is_self_field(rts[0][1] if rts[0][0] == 'ref' else rts[0], 'transform')
     ctx.check(ok, R, 'draw_target::DrawTarget::get_transform', g.loc(), 'returns &self.transform', 'get_transform does not return the stored transform')
+
+
+def r03_11(ctx):
+    """the global alpha byte reaches every per-pixel multiplier converted to the 0..=256 scale exactly once: for each
+    shader that keeps an `alpha` field, the field (as its constructor computes it) composed with the argument that
+    choose_shader passes contains exactly one alpha_to_alpha256, applied to the alpha byte itself; likewise the solid
+    colour.  (Zero conversions scale by alpha/256, two by (alpha+2)/256: wrong at alpha = 255 and at alpha = 0.)"""
+    from geomalg import tsubst
+    R = 'R03.11'
+    cs = ctx.body('raqote::blitter::choose_shader', R)
+    can = ctx.an(cs)
+    # the alpha byte: the u32 made from the f32 parameter (param 3)
+    def is_byte(t):
+        t = strip_casts(strip_all(t), ('IntToInt',))
+        if t[0] == 'phi':
+            return all(is_byte(x) for x in can.phi_terms(t))
+        return t[0] == 'cast' and t[1] == 'FloatToInt' and any(x == ('param', 3) for x in subterms(t))
+    def count_conv(t):
+        return sum(1 for x in subterms(t) if is_call(x, 'alpha_to_alpha256'))
+    n = 0
+    for q, b in sorted(ctx.F.bodies.items()):
+        if not (q.startswith('raqote::blitter::') and q.endswith('::new')):
+            continue
+        rts = shared.ret_terms(ctx, b)
+        if len(rts) != 1 or rts[0][0] != 'agg':
+            continue
+        f = dict(rts[0][4])
+        if 'alpha' not in f:
+            continue
+        fa = f['alpha']
+        sites = [ct for bi, d, ct in calls_in(ctx, cs) if d == q]
+        key = short(q)
+        if not ctx.check(len(sites) >= 1, R, key + '|called', b.loc(), 'constructed by choose_shader', '%s is no longer constructed by choose_shader: cannot follow the alpha (fail closed)' % short(q)):
+            continue
+        for ct in sites:
+            n += 1
+            env = {i + 1: a for i, a in enumerate(ct[2])}
+            comp = tsubst(fa, env)
+            convs = [x for x in subterms(comp) if is_call(x, 'alpha_to_alpha256')]
+            ok = len(convs) == 1 and is_byte(convs[0][2][0]) and strip_casts(strip_all(comp), ('IntToInt',)) == convs[0]
+            ctx.check(ok, R, key + '|alpha converted once', call_line(cs, ct[3]) if isinstance(ct[3], int) and cs.blocks[ct[3]]['t'].get('k') == 'call' else cs.loc(),
+                      'alpha field = alpha_to_alpha256(alpha byte)', 'the alpha that %s multiplies every pixel with is %s: the alpha byte must be converted with alpha_to_alpha256 exactly once on its way (%d conversions here): at alpha = 1.0 the image is no longer reproduced exactly / at alpha = 0 something is still drawn'
+                      % (short(q).replace('::new', ''), fmt(cs, comp)[:120], len(convs)))
+    ctx.floor(R, 'alpha-scaled image shader constructions', n, 4)
+    # the solid colour
+    sol = [ct for bi, d, ct in calls_in(ctx, cs) if d == 'sw_composite::alpha_mul']
+    for ct in sol:
+        w = ct[2][1]
+        convs = [x for x in subterms(w) if is_call(x, 'alpha_to_alpha256')]
+        ok = len(convs) == 1 and is_byte(convs[0][2][0]) and strip_casts(strip_all(w), ('IntToInt',)) == convs[0]
+        ctx.check(ok, R, 'blitter::choose_shader|solid alpha converted once', call_line(cs, ct[3]), 'solid colour scaled by alpha_to_alpha256(alpha byte)',
+                  'the solid colour is scaled by %s: the alpha byte must be converted with alpha_to_alpha256 exactly once' % fmt(cs, w)[:120])
+    ctx.check(len(sol) >= 1, R, 'blitter::choose_shader|solid alpha', cs.loc(), 'solid colour is scaled by the global alpha', 'choose_shader no longer scales the solid colour by the global alpha with alpha_mul (fail closed)')
